@@ -19,6 +19,11 @@ theorem C15_every_exit_aborts :
     Gen.listenCanParseErrorAbortsAll = true ∧ Gen.listenServerClosers = 3 := by
   decide
 
+/-- …and `abort` itself closes EVERY closer it is handed that is not nil: the body of its loop is
+    `if c != nil { c.Close() }` (or the `continue` form), with no further condition — regenerated
+    from server/utils.go on every run. -/
+theorem C15_abort_closes_all : Gen.abortClosesEveryNonNil = true := by decide
+
 /-- **Every prefix ends the connection's goroutine**: on every input the loop stops — with
     everything closed by the server (`closed`), because the input ended (`eof`, after which the
     server closes everything too), or because the process died — and never runs on. -/
